@@ -582,6 +582,12 @@ class G:
         ("8d54bf7", "from t\nsort b\naggregate {s = sum a}\ntake 2..\nfilter s > 1"),
         ("456bdcd", "from t\nsort id\nselect {a, b}\ntake 2\ngroup {a} (aggregate {n = count b})"),
         ("7911778", "from t\nselect {a + 1, b + 1}\njoin u (true)\ntake 3"),
+        ("006e33c", "from t\nderive {x = that}"),
+        ("006e33c", "from t\njoin u (==id)\nfilter that.a > 1"),
+        ("7f02b48", "module m {\n  let x = (from t | select {a})\n  module n {\n    let y = (from x | take 2)\n  }\n}\nfrom m.n.y"),
+        ("7f02b48", "let x = (from u | select {d})\nmodule m {\n  let x = (from t | select {a})\n  let y = (from x | take 2)\n}\nfrom m.y\nselect {a}"),
+        ("bb7bbd5", "from v\nderive {r = (s | text.contains (s + \"b\"))}"),
+        ("bb7bbd5", "from v\nfilter (s | text.starts_with (case [x > 1 => \"a\", true => \"b\"]))\nselect {s}"),
     ]
 
     @classmethod
